@@ -30,7 +30,7 @@ RULE = (
 ASSUMPTIONS = [
     "central differences at relative step 1e-4: tolerance 1e-6 for elasticities; response coefficients inherit the steady-state solver error amplified by 1/2e-4: tolerance 2e-2",
 ]
-N = {"quick": 120, "thorough": 1500}
+N = {"quick": 120, "thorough": 7500}
 MIN_NONTRIVIAL = {"quick": 20, "thorough": 300}
 WORKERS = {"quick": 8, "thorough": 8}
 CASE_TIMEOUT = 600
